@@ -66,7 +66,7 @@ def plan(tier, rnd):
                 items.append(dict(tid=tid, bl=bl, n=2500 if not heavy else 1200, exhaustive=True))
             for bl in ([4, 5, 6] if heavy else [4, 5, 6, 7]):
                 items.append(dict(tid=tid, bl=bl, n=150 if not heavy else {4: 60, 5: 20, 6: 4}[bl], exhaustive=False))
-    for kind in ("array_read", "array_write", "array_2d", "compose", "select_lazy", "reuse_after_guard", "under_true_guard", "three_level", "ignore_mode", "bool_typed_fresh"):
+    for kind in ("array_read", "array_write", "array_2d", "compose", "select_lazy", "reuse_after_guard", "under_true_guard", "three_level", "ignore_mode", "bool_typed_fresh", "region_list_growth"):
         for bl in (2, 3, 4):
             items.append(dict(tid=kind, bl=bl, n=(25 if tier == "quick" else 500), exhaustive=False))
     rnd.shuffle(items)
@@ -170,6 +170,22 @@ def special_case(kind, bl, rnd):
         c.op_src = "@guarded(c0)\ndef _b():\n    return %s\n_b()\nr = %s" % (op, op)
         c.expr = c.op_src
         return c
+    if kind == "region_list_growth":
+        # a tracked list that grows inside a region: the library refuses it when the region closes (then there is nothing to judge);
+        # if it ever lets the program through, whatever ends up in the list must be pinned down like any other result
+        c = Case(kind, "", bl, 0, [], [], "i")
+        a, b, g = rnd.randint(0, h), rnd.randint(1, max(1, h)), rnd.choice([0, 0, 1])
+        c.inputs = [a, b, g]
+        c.pre_src = "x0 = PrivVal(I[0])\nx1 = PrivVal(I[1])\nc0 = PrivValBool(I[2])\n"
+        elem = rnd.choice(["x0 / x1", "(x0 < x1) + 0", "x0 * x1", "LinComb.from_bits(x0.to_bits())", "x0 // x1"])
+        how = rnd.choice(["if", "for"])
+        if how == "if":
+            body = "if _if(c0, ctx=_):\n    _.out = _.out + [%s]\n_endif(ctx=_)\n" % elem
+        else:
+            body = "for _i in _range(c0 + 0, max=2, ctx=_):\n    _.out = _.out + [%s]\n_endfor(ctx=_)\n" % elem
+        c.op_src = "_ = BranchingValues()\n_.out = [x0 + 0]\n" + body + "r = _.out[-1] + 0"
+        c.expr = c.op_src
+        return c
     if kind == "bool_typed_fresh":
         # a boolean-typed result built from a witness the prover chooses freely (allocated inside the operation): whatever the
         # prover picks, the typed result must be 0 or 1 - also when the same object was converted before, inside a region that was
@@ -178,7 +194,10 @@ def special_case(kind, bl, rnd):
         g, tv = rnd.choice([0, 0, 1]), rnd.randint(0, 1)
         c.inputs = [g, tv]
         c.pre_src = "c0 = PrivValBool(I[0])\n"
-        op = rnd.choice(["LinCombBool(t)", "c0 & t", "c0 | t", "LinCombBool(t) & LinCombBool(t)", "~LinCombBool(t)", "LinCombBool(t) ^ c0"])
+        op = rnd.choice(["LinCombBool(t)", "c0 & t", "c0 | t", "LinCombBool(t) & LinCombBool(t)", "~LinCombBool(t)", "LinCombBool(t) ^ c0",
+                         # selections between a bit and an integer the prover chooses: if the result is typed boolean it must be one
+                         "if_then_else(c0, c0 & c0, t)", "if_then_else(c0, t, ~c0)", "if_then_else(c0, LinCombBool(t), t)",
+                         "if_then_else(c0, c0, t * t)"])
         first = rnd.choice(["none", "guarded", "lazy", "ignore"])
         pre = {"none": "", "guarded": "@guarded(c0)\ndef _b():\n    return %s\n_b()\n" % op,
                "lazy": "if_then_else(c0, lambda: (%s) + 0, 3)\n" % op,
@@ -334,6 +353,10 @@ def judge(R, c, p, N, capture, solve, maxleaves=60000):
             R.count("solver_inconclusive")
             R.case(nontrivial=False)
             return "inconclusive"
+        if cap.kinds != ["LinCombBool"]:
+            R.count("result_not_typed_boolean")       # e.g. a selection that the library types as an integer: nothing is claimed
+            R.case(nontrivial=False)
+            return "not-boolean-typed"
         R.count("conclusive")
         R.case(cell="%s|bl%d" % (c.tid, c.bl), key=c.key() + (p,))
         bad = sorted(v[0] for v in res.values if v[0] not in (0, 1))
